@@ -74,6 +74,7 @@ func registerCtxModel(ex *Explorer) {
 		for _, t := range append([]*txHandle{}, st.open...) {
 			st.finish(t)
 		}
+		st.dbRows = nil // the dead process's cursors are gone with its connections
 		in.crashAt = -1
 		in.faultAt = -1
 		return in.newHandle("DB", &dbHandle{st})
